@@ -63,7 +63,7 @@ impl<CS: CLCiphersuite> PoKSignature<CL03<CS>> {
         let min_x = Integer::from(0);
         let max_x = Integer::from(2).pow(CS::lm) - 1;
 
-        let spok = NISPSignaturePoK::nisp5_MultiAttr_generate_proof::<CS>(
+        let mut spok = NISPSignaturePoK::nisp5_MultiAttr_generate_proof::<CS>(
             signature,
             commitment_pk,
             signer_pk,
@@ -110,7 +110,7 @@ impl<CS: CLCiphersuite> PoKSignature<CL03<CS>> {
             );
             proofs_mi.push(ProofOfValue {
                 value: proof_mi_ri,
-                commitment: cmi.clone(),
+                commitment: cmi.without_opening(),
             });
             let r_proof_mi = match CS::RANGEPROOF_ALG {
                 RangeProof::Boudot2000 => Boudot2000RangeProof::prove::<CS::HashAlg>(
@@ -126,6 +126,12 @@ impl<CS: CLCiphersuite> PoKSignature<CL03<CS>> {
 
             r_proofs_mi.push(r_proof_mi);
         }
+
+        // the openings were only needed to build the proofs above
+        spok.Cx = spok.Cx.without_opening();
+        spok.Cv = spok.Cv.without_opening();
+        spok.Cw = spok.Cw.without_opening();
+        spok.Ce = spok.Ce.without_opening();
 
         Self::CL03(CL03PoKSignature {
             spok,
@@ -152,6 +158,18 @@ impl<CS: CLCiphersuite> PoKSignature<CL03<CS>> {
         let min_x = Integer::from(0);
         let max_x = Integer::from(2).pow(CS::lm) - 1;
         let CLSPoK = self.to_cl03_proof();
+        if !(CLSPoK.spok.Cx.has_no_opening()
+            && CLSPoK.spok.Cv.has_no_opening()
+            && CLSPoK.spok.Cw.has_no_opening()
+            && CLSPoK.spok.Ce.has_no_opening()
+            && CLSPoK
+                .proofs_commited_mi
+                .iter()
+                .all(|p| p.commitment.has_no_opening()))
+        {
+            println!("The proof carries the opening of a commitment!");
+            return false;
+        }
         let boolean_spok = NISPSignaturePoK::nisp5_MultiAttr_verify_proof::<CS>(
             &CLSPoK.spok,
             commitment_pk,
@@ -306,7 +324,7 @@ impl<CS: CLCiphersuite> ZKPoK<CL03<CS>> {
             );
             proofs_mi.push(ProofOfValue {
                 value: proof_mi,
-                commitment: cmi.clone(),
+                commitment: cmi.without_opening(),
             });
             match CS::RANGEPROOF_ALG {
                 RangeProof::Boudot2000 => {
@@ -337,7 +355,7 @@ impl<CS: CLCiphersuite> ZKPoK<CL03<CS>> {
                 &signer_pk.b,
                 &signer_pk.N,
             ),
-            commitment: cr.cl03Commitment().to_owned(),
+            commitment: cr.cl03Commitment().without_opening(),
         };
 
         let rproof_r = match CS::RANGEPROOF_ALG {
@@ -375,6 +393,16 @@ impl<CS: CLCiphersuite> ZKPoK<CL03<CS>> {
         CS::HashAlg: Digest,
     {
         let zkpok = self.to_cl03_zkpok();
+
+        if !(zkpok.proof_r.commitment.has_no_opening()
+            && zkpok
+                .proofs_commited_mi
+                .iter()
+                .all(|p| p.commitment.has_no_opening()))
+        {
+            println!("The proof carries the opening of a commitment!");
+            return false;
+        }
 
         let mut boolean_C_Ctrusted: bool = true;
         if let Some(C_trusted) = C_trusted {
